@@ -20,7 +20,7 @@ CHUNK = 6
 BIN = os.path.join(runner.STUBS, 'bin')
 PALETTES = [['#102030', '#203040'], ['#111111', '#222222', '#333333'], ['#400000', '#004000', '#000040', '#404000'],
             ['#101010', '#202020', '#303030', '#404040', '#505050', '#606060'], ['52', '22', '17'], ['red', 'blue']]
-AUTHORS = ['Dan Davison', 'Ann', 'Jörg Müller', '山田 太郎', 'x y z w', 'Thomas Otto', "O'Neil", 'a-b c', 'Bo']
+AUTHORS = ['Dan Davison', 'Ann', 'Jörg Müller', '山田 太郎', 'x y z w', 'Thomas Otto', "O'Neil", 'a-b c', 'Bo', 'A', 'J. (Jim) Doe', '语']
 
 
 def plan(ctx):
@@ -31,11 +31,12 @@ def plan(ctx):
 
 def gen_model(rng):
     ncommits = rng.randint(1, 6)
+    hash_len = rng.choice([8, 8, 8, 7, 10, 12, 40])      # git blame, --abbrev=N, -l
     commits = []
     used = set()
     for i in range(ncommits):
         while True:
-            h = ''.join(rng.choice('0123456789abcdef') for _ in range(8))
+            h = ''.join(rng.choice('0123456789abcdef') for _ in range(hash_len))
             if h[:7] not in used:
                 used.add(h[:7])
                 break
@@ -114,8 +115,10 @@ def run_item(item):
     sepcls = rng.choice(['every', 'every', 'block', 'none'])
     sepfmt = {'every': '‖{n:^5}‖', 'block': '‖{n:^5_block}‖', 'none': 'none'}[sepcls]
     tabs = rng.choice([8, 4, 2])
+    with_zone = rng.random() < 0.5
+    tsfmt = '%Y-%m-%d %H:%M' + (' %z' if with_zone else '')
     opts = {'--paging': 'never', '--true-color': 'always', '--blame-palette': ' '.join(palette), '--blame-format': fmt,
-            '--blame-timestamp-output-format': '%Y-%m-%d %H:%M', '--blame-separator-format': sepfmt, '--syntax-theme': 'none',
+            '--blame-timestamp-output-format': tsfmt, '--blame-separator-format': sepfmt, '--syntax-theme': 'none',
             '--tabs': tabs}
     if rng.random() < 0.3:
         opts['--syntax-theme'] = rng.choice(['Dracula', 'GitHub'])
@@ -148,7 +151,7 @@ def run_item(item):
         t = r.text()
         cm = l['commit']
         shown_hash = cm.get('raw_hash') or (('^' + cm['hash'][:7]) if cm['boundary'] else cm['hash'])
-        tstr = cm['time'][:16]
+        tstr = cm['time'][:16] + ((' ' + cm['tz']) if with_zone else '')
         key = (shown_hash, cm['author'], cm['time'], cm['tz'])
         keys.append(key)
         repeat = i > 0 and keys[i - 1] == key
@@ -187,8 +190,8 @@ def run_item(item):
                 return bad('metadata-not-blanked', 'metadata repeated on a consecutive line of the same commit', '', meta)
         else:
             fields = [f.strip() for f in meta.split('¦')]
-            want = {'commit-author-time': [shown_hash[:8], cm['author'], tstr], 'time-commit': [tstr, shown_hash[:9]],
-                    'commit-only': [shown_hash[:8]], 'author-commit': [cm['author'], shown_hash[:8]]}[fmt_cls]
+            want = {'commit-author-time': [shown_hash, cm['author'], tstr], 'time-commit': [tstr, shown_hash],
+                    'commit-only': [shown_hash], 'author-commit': [cm['author'], shown_hash]}[fmt_cls]
             if kind == 'real':
                 want = [w for w in want]
             if fields != want:
